@@ -13,14 +13,14 @@ Open Scope Z_scope.
 Inductive oemit := OCopy (id : Z) (identical : bool) | OBareAck (pmid : Z) | OOther.
 
 Inductive okind :=
-| KSend (id : Z) (dl : option Z) | KAge (ms : Z) | KTick | KAck (id : Z) | KRst (id : Z)
+| KSend (id : Z) (dl : option Z) | KSendM (id : Z) (dl : option Z) (mid : Z) | KAge (ms : Z) | KTick | KAck (id : Z) | KRst (id : Z)
 | KPiggy (id code : Z) | KSep (id code : Z) | KCancel (id : Z).
 
 Record oev := { k : okind; em : list oemit; ret : list (Z * Z * Z) }.
 
 Definition MARGIN : Z := 300.
 
-Record track := { t_id : Z; t_copies : Z; t_elapsed : Z; t_stopped : bool; t_ticked : bool;
+Record track := { t_id : Z; t_mid : Z (* message ID, by name *); t_copies : Z; t_elapsed : Z; t_stopped : bool; t_ticked : bool;
                   t_acked : bool; t_dl : option Z; t_resp : option Z; t_done : bool;
                   t_dead : bool (* found exhausted by a tick *) }.
 
@@ -56,7 +56,7 @@ Fixpoint copies_ok (ack maxrt : Z) (is_tick : bool) (ts : list track) (e : list 
           else if 1 + maxrt <? t_copies t + 1 then (1%N, ts)
           else if (1 <=? t_copies t) && (negb is_tick || (t_elapsed t <? t_copies t * ack - MARGIN)) then (3%N, ts)
           else copies_ok ack maxrt is_tick
-                 (upd ts id (fun t => {| t_id := t_id t; t_copies := t_copies t + 1; t_elapsed := t_elapsed t; t_stopped := t_stopped t;
+                 (upd ts id (fun t => {| t_id := t_id t; t_mid := t_mid t; t_copies := t_copies t + 1; t_elapsed := t_elapsed t; t_stopped := t_stopped t;
                                          t_ticked := false; t_acked := t_acked t; t_dl := t_dl t; t_resp := t_resp t; t_done := t_done t; t_dead := t_dead t |})) r
       end
   | _ :: r => copies_ok ack maxrt is_tick ts r
@@ -71,28 +71,45 @@ Fixpoint rets_ok (ts : list track) (r : list (Z * Z * Z)) : N * list track :=
       | Some t =>
           if (res =? 0) && negb (match t_resp t with Some c => c =? code | None => false end) then (6%N, ts)
           else if (res =? 0) && t_dead t then (7%N, ts)
-          else rets_ok (upd ts id (fun t => {| t_id := t_id t; t_copies := t_copies t; t_elapsed := t_elapsed t; t_stopped := true;
+          else rets_ok (upd ts id (fun t => {| t_id := t_id t; t_mid := t_mid t; t_copies := t_copies t; t_elapsed := t_elapsed t; t_stopped := true;
                                                t_ticked := t_ticked t; t_acked := t_acked t; t_dl := t_dl t; t_resp := t_resp t; t_done := true; t_dead := t_dead t |})) r'
       end
   end.
 
 Definition set_flags (t : track) (stopped acked : bool) (resp : option Z) : track :=
-  {| t_id := t_id t; t_copies := t_copies t; t_elapsed := t_elapsed t; t_stopped := t_stopped t || stopped;
+  {| t_id := t_id t; t_mid := t_mid t; t_copies := t_copies t; t_elapsed := t_elapsed t; t_stopped := t_stopped t || stopped;
      t_ticked := t_ticked t; t_acked := t_acked t || acked; t_dl := t_dl t;
      t_resp := match t_resp t with Some c => Some c | None => resp end; t_done := t_done t; t_dead := t_dead t |}.
+
+Definition new_track (id mid : Z) (dl : option Z) : track :=
+  {| t_id := id; t_mid := mid; t_copies := 0; t_elapsed := 0; t_stopped := false; t_ticked := false;
+     t_acked := false; t_dl := dl; t_resp := None; t_done := false; t_dead := false |}.
+
+(* "The matching acknowledgement": an ACK / RST is matched by the message ID it carries.  The event
+   [KAck id] stands for an ACK carrying the message ID of request id (a request issued with plain Send has
+   a fresh ID of its own, [KSendM] names the ID chosen by the application).  It acknowledges the request
+   that is outstanding under that ID: transmitted, not yet acknowledged/reset/cancelled, call not returned.
+   At most one request can be (a second one using the ID of an outstanding request is refused); if none
+   is, the message answers nothing that is still open and is accounted to request id itself. *)
+Definition outstanding (t : track) : bool := (1 <=? t_copies t) && negb (t_done t) && negb (t_stopped t).
+Definition mid_name (ts : list track) (id : Z) : Z := match get ts id with Some t => t_mid t | None => id end.
+Fixpoint find_out (ts : list track) (m : Z) : option Z :=
+  match ts with [] => None | t :: r => if (t_mid t =? m) && outstanding t then Some (t_id t) else find_out r m end.
+Definition ack_target (ts : list track) (id : Z) : Z :=
+  match find_out ts (mid_name ts id) with Some j => j | None => id end.
 
 Definition judge (ack maxrt : Z) (ts : list track) (e : oev) : N * list track :=
   (* 1. bookkeeping that precedes the observation of this event *)
   let is_tick := match k e with KTick => true | _ => false end in
   let ts0 :=
     match k e with
-    | KSend id dl => ts ++ [{| t_id := id; t_copies := 0; t_elapsed := 0; t_stopped := false; t_ticked := false;
-                               t_acked := false; t_dl := dl; t_resp := None; t_done := false; t_dead := false |}]
+    | KSend id dl => ts ++ [new_track id id dl]
+    | KSendM id dl m => ts ++ [new_track id m dl]
     | KAge ms => map (fun t => if 1 <=? t_copies t then
-                                 {| t_id := t_id t; t_copies := t_copies t; t_elapsed := t_elapsed t + ms; t_stopped := t_stopped t;
+                                 {| t_id := t_id t; t_mid := t_mid t; t_copies := t_copies t; t_elapsed := t_elapsed t + ms; t_stopped := t_stopped t;
                                     t_ticked := t_ticked t; t_acked := t_acked t; t_dl := t_dl t; t_resp := t_resp t; t_done := t_done t; t_dead := t_dead t |}
                                else t) ts
-    | KTick => map (fun t => {| t_id := t_id t; t_copies := t_copies t; t_elapsed := t_elapsed t; t_stopped := t_stopped t;
+    | KTick => map (fun t => {| t_id := t_id t; t_mid := t_mid t; t_copies := t_copies t; t_elapsed := t_elapsed t; t_stopped := t_stopped t;
                                 t_ticked := true; t_acked := t_acked t; t_dl := t_dl t; t_resp := t_resp t; t_done := t_done t;
                                 (* all 1 + MAX_RETRANSMIT copies went out before this tick and the request is still pending (nothing
                                    acknowledged, reset or cancelled it): exhausted *)
@@ -112,23 +129,22 @@ Definition judge (ack maxrt : Z) (ts : list track) (e : oev) : N * list track :=
         | Some t => if t_acked t && negb (t_done t) then Some (id, match t_resp t with Some c => c | None => code end) else None
         | None => None end
     | KAck id =>
-        match get ts0 id with
+        let j := ack_target ts0 id in
+        match get ts0 j with
         | Some t => if alive maxrt t && negb (t_done t) && negb (t_stopped t)
-                    then match t_resp t with Some c => Some (id, c) | None => None end else None
+                    then match t_resp t with Some c => Some (j, c) | None => None end else None
         | None => None end
     | _ => None
     end in
   (* 3. flags set by the event itself *)
   let ts1 :=
     match k e with
-    | KAck id => match get ts0 id with
-                 | Some t => upd ts0 id (fun t => set_flags t true (alive maxrt t && negb (t_stopped t)) None)
-                 | None => ts0 end
-    | KRst id => upd ts0 id (fun t => set_flags t true false None)
+    | KAck id => upd ts0 (ack_target ts0 id) (fun t => set_flags t true (alive maxrt t && negb (t_stopped t)) None)
+    | KRst id => upd ts0 (ack_target ts0 id) (fun t => set_flags t true false None)
     | KPiggy id code =>
-        match get ts0 id with
-        | Some t => upd ts0 id (fun t => set_flags t true (alive maxrt t && negb (t_stopped t)) (if t_done t then None else Some code))
-        | None => ts0 end
+        (* the ACK part goes by message ID, the response part by token (request id) *)
+        let ts' := upd ts0 (ack_target ts0 id) (fun t => set_flags t true (alive maxrt t && negb (t_stopped t)) None) in
+        upd ts' id (fun t => set_flags t false false (if t_done t then None else Some code))
     | KSep id code => upd ts0 id (fun t => set_flags t false false (if t_done t then None else Some code))
     | KCancel id => upd ts0 id (fun t => set_flags t true false None)
     | _ => ts0
